@@ -297,6 +297,12 @@ func genRecord(r *rand.Rand, idx, nref int, sizeClass int) (arec, []sam.Aux) {
 			if r.Intn(3) == 0 {
 				a.Cigar = append(a.Cigar, [2]int{5, 7}) // hard clip at the end
 			}
+			switch r.Intn(12) {
+			case 0: // an operation of the largest length a BAM CIGAR word holds, consuming no query
+				a.Cigar = append([][2]int{a.Cigar[0], {[]int{2, 3, 6}[r.Intn(3)], 1<<28 - 1}}, a.Cigar[1:]...)
+			case 1: // the same as a leading hard clip
+				a.Cigar = append([][2]int{{5, 1<<28 - 1}}, a.Cigar...)
+			}
 		}
 	}
 	var auxs []sam.Aux
@@ -561,6 +567,9 @@ func Run(out, mode string) {
 	for f := 0; f < nfiles; f++ {
 		readerInputs()
 		nref := []int{3, 3, 0, 1, 17}[f%5]
+		if f%20 == 7 {
+			nref = []int{1001, 1000, 2500}[(f/20)%3] // around the binary header reader's pre-allocation bound
+		}
 		h := genHeader(r, nref, f)
 		names := []string{}
 		for _, rf := range h.Refs() {
